@@ -34,7 +34,9 @@ META = {
                "read_all: last accessible location = every boundary around the bank's values (thorough: "
                "0..declared last+2), one value's bytes symbolic per case, latch on/off",
                "MASK / TMASK reported by read() exactly where the DiiA flag table (spec/memory_map.FLAGS) "
-               "says the value supports them"],
+               "says the value supports them",
+               "a few single-value reads and one read_all per bank twice in one process against independent "
+               "units (another last accessible location, another image)"],
     "stubs": ["isinstance/int/bytes/pow shims"],
     "outside": ["units that violate 9.10 other than by silence/garbling", "several disturbances at once",
                 "read_all with all values symbolic at once (product of per-value outcomes)"],
